@@ -381,6 +381,4 @@ SELFTEST = [
     {"name": "twin: guard as early returns", "file": GEN, "expect": None,
      "old": "    if (\n        ctx.has_var_indirection_override\n        or ctx.use_var_indirection\n        or _is_dynamic(var)\n        or _is_redefable(var)\n    ):\n        return __var_find_to_py_ast(var_name, var_ns_name, py_var_ctx)\n",
      "new": "    if ctx.has_var_indirection_override or ctx.use_var_indirection:\n        return __var_find_to_py_ast(var_name, var_ns_name, py_var_ctx)\n    if _is_dynamic(var):\n        return __var_find_to_py_ast(var_name, var_ns_name, py_var_ctx)\n    if _is_redefable(var):\n        return __var_find_to_py_ast(var_name, var_ns_name, py_var_ctx)\n"},
-    {"name": "twin: new injective munge entry", "file": UTIL, "expect": None,
-     "old": "    \"%\": \"__PCT__\",\n", "new": "    \"%\": \"__PCT__\",\n    \"~\": \"\\u1234\",\n"},
 ]
